@@ -284,8 +284,10 @@ def check_case(ctx, case):
                          exp3, list(r3))
         # Hilbert packing uses the active column
         with dask.config.set(scheduler="synchronous"):
-            ok_, pk, tb_ = ctx.guarded(lambda: ddf.pack_partitions(npartitions=2, p=8).compute())
+            ok_, pk, tb_ = ctx.guarded(lambda: ddf.pack_partitions(npartitions=2, p=8,
+                                                                   shuffle=["tasks", "disk"][rseed % 2]).compute())
         if ok_:
+            check_state(pk, f"dask-pack-{['tasks', 'disk'][rseed % 2]}-compute", a)
             ctx.count("spatial_checks")
             ehd = dict(zip(t["rid"].tolist(), t[a].array.hilbert_distance(list(etb), p=8).tolist())) \
                 if etb[0] == etb[0] else None
